@@ -176,6 +176,24 @@ pub fn built_tx(ctx: &mut Ctx, tape: &[u8], focus: Focus) -> Option<Outcome> {
     Some(o)
 }
 
+/// C08, combined entry points: a builder history balanced through add_inputs_from_and_change(_with_collateral_return)
+/// must end with inputs that pay for the outputs and the minimum fee of the final transaction. That is exactly C06's
+/// judgement of "the fee the builder set" (ledger minimum of the really signed transaction), restricted to the histories
+/// that went through a select-and-change call; failures of other histories are C06's own business and are not reported here.
+pub fn c08_combined_case(ctx: &mut Ctx, tape: &[u8]) -> CaseResult {
+    match c06_case(ctx, tape) {
+        Ok(()) => Ok(()),
+        Err(f) => {
+            let through_selection = f.detail.contains("balancing add_inputs_from") || f.detail.contains("balancing (add_inputs_from");
+            if through_selection && f.sig.starts_with("fee/") {
+                Err(Failure::new(format!("combined/{}", f.sig), f.detail))
+            } else {
+                Ok(())
+            }
+        }
+    }
+}
+
 pub fn c06_case(ctx: &mut Ctx, tape: &[u8]) -> CaseResult {
     let mut focus = Focus::general();
     focus.scripts = 60;
